@@ -28,21 +28,36 @@ func zzEthTx(from string, to *common.Address, gas uint64, gasPrice, value *big.I
 	return tx
 }
 
-// EVM programs of the callee (all start by writing 1 to storage slot 0).
-var zzEvmPrograms = [][]byte{
-	{0x60, 0x01, 0x60, 0x00, 0x55, 0x00},                         // SSTORE; STOP
-	{0x60, 0x01, 0x60, 0x00, 0x55, 0x60, 0x00, 0x60, 0x00, 0xfd}, // SSTORE; REVERT
-	{0x60, 0x01, 0x60, 0x00, 0x55, 0xfe},                         // SSTORE; INVALID
-	{0x60, 0x01, 0x60, 0x00, 0x55, 0x5b, 0x60, 0x05, 0x56},       // SSTORE; loop forever (out of gas)
-	// SSTORE; send 5 wei to zzEvmOther (CALL gas=0 to=E2 value=5 no data); REVERT
-	{0x60, 0x01, 0x60, 0x00, 0x55,
-		0x60, 0x00, 0x60, 0x00, 0x60, 0x00, 0x60, 0x00, 0x60, 0x05, 0x60, 0xE2, 0x60, 0x00, 0xf1,
-		0x60, 0x00, 0x60, 0x00, 0xfd},
-	// SSTORE; LOG0(0,0); send 5 wei to zzEvmOther; STOP
-	{0x60, 0x01, 0x60, 0x00, 0x55,
-		0x60, 0x00, 0x60, 0x00, 0xa0,
-		0x60, 0x00, 0x60, 0x00, 0x60, 0x00, 0x60, 0x00, 0x60, 0x05, 0x60, 0xE2, 0x60, 0x00, 0xf1,
-		0x00},
+const zzEvmReverter = "0x00000000000000000000000000000000000000E3" // code: REVERT(0,0)
+
+// zzEvmProgram assembles the callee: an optional nested call made FIRST (to a contract that always
+// reverts, or 5 wei sent to a plain account), then SSTORE(0,1) and LOG0, then one of four endings.
+func zzEvmProgram(prefix, ending int) []byte {
+	var code []byte
+	call := func(value, to byte) {
+		// CALL(gas=GAS, to, value, in 0/0, out 0/0); POP
+		code = append(code, 0x60, 0x00, 0x60, 0x00, 0x60, 0x00, 0x60, 0x00, 0x60, value, 0x60, to, 0x5a, 0xf1, 0x50)
+	}
+	switch prefix {
+	case 1:
+		call(0, 0xE3)
+	case 2:
+		call(5, 0xE2)
+	}
+	code = append(code, 0x60, 0x01, 0x60, 0x00, 0x55) // SSTORE(0, 1)
+	code = append(code, 0x60, 0x00, 0x60, 0x00, 0xa0) // LOG0(0, 0)
+	switch ending {
+	case 0:
+		code = append(code, 0x00) // STOP
+	case 1:
+		code = append(code, 0x60, 0x00, 0x60, 0x00, 0xfd) // REVERT(0,0)
+	case 2:
+		code = append(code, 0xfe) // INVALID
+	case 3:
+		pc := byte(len(code))
+		code = append(code, 0x5b, 0x60, pc, 0x56) // JUMPDEST; PUSH1 pc; JUMP: runs out of gas
+	}
+	return code
 }
 
 // ZZH_C07_eth: one eth transaction (value transfer, contract call or contract creation) through the
@@ -56,8 +71,10 @@ func ZZH_C07_eth() {
 	contract := zzAddr(zzEvmContract)
 	other := zzAddr(zzEvmOther)
 	sender := zzAddr(zzUsers[0])
-	prog := zz.Choice("program", len(zzEvmPrograms))
-	exec.ledger.SetCode(contract, zzEvmPrograms[prog])
+	prefix, ending := zz.Choice("prefix", 3), zz.Choice("ending", 4)
+	program := zzEvmProgram(prefix, ending)
+	exec.ledger.SetCode(contract, program)
+	exec.ledger.SetCode(zzAddr(zzEvmReverter), []byte{0x60, 0x00, 0x60, 0x00, 0xfd})
 	exec.ledger.SetState(contract, common.Hash{}.Bytes(), common.BytesToHash([]byte{7}).Bytes(), nil)
 	exec.ledger.SetBalance(contract, big.NewInt(50))
 	exec.ledger.SetBalance(other, big.NewInt(9))
@@ -81,8 +98,15 @@ func ZZH_C07_eth() {
 		a := common.HexToAddress(zzEvmOther)
 		to = &a
 	case 2: // creation whose init code is one of the programs
-		data = zzEvmPrograms[prog]
+		data = program
 	}
+	sum := func() *big.Int {
+		s := new(big.Int).Add(zzBalance(exec, zzUsers[0]), zzBalance(exec, zzEvmContract))
+		s.Add(s, zzBalance(exec, zzEvmOther))
+		s.Add(s, zzBalance(exec, zzAdmins[0]))
+		return s
+	}
+	preSum := sum()
 	tx := zzEthTx(zzUsers[0], to, gas, gasPrice, value, data)
 	preNonce := exec.ledger.GetNonce(sender)
 	receipt := exec.applyTransaction(0, tx, "", nil)
@@ -97,12 +121,6 @@ func ZZH_C07_eth() {
 	fee := new(big.Int).Mul(new(big.Int).SetUint64(receipt.GasUsed), gasPrice)
 	postNonce := exec.ledger.GetNonce(sender)
 	zz.Assert("C07.eth.nonce-advances-by-at-most-one", postNonce == preNonce || postNonce == preNonce+1)
-	sum := func() *big.Int {
-		s := new(big.Int).Add(zzBalance(exec, zzUsers[0]), zzBalance(exec, zzEvmContract))
-		s.Add(s, zzBalance(exec, zzEvmOther))
-		s.Add(s, zzBalance(exec, zzAdmins[0]))
-		return s
-	}
 	if failed {
 		ok, v := exec.ledger.GetState(contract, common.Hash{}.Bytes())
 		zz.Assert("C07.eth.failed.storage-restored", ok && common.BytesToHash(v) == common.BytesToHash([]byte{7}))
@@ -112,6 +130,15 @@ func ZZH_C07_eth() {
 		zz.Assert("C07.eth.failed.no-logs", len(receipt.EvmLogs) == 0)
 		zz.Assert("C07.eth.failed.no-delivery", len(exec.txsExecutor.GetInterchainCounter()) == 0)
 	}
-	_ = sum
+	if !failed && to != nil && to.Hex() == common.HexToAddress(zzEvmContract).Hex() {
+		ok, v := exec.ledger.GetState(contract, common.Hash{}.Bytes())
+		zz.Assert("C07.eth.ok.storage-written", ok && common.BytesToHash(v) == common.BytesToHash([]byte{1}))
+		zz.Assert("C07.eth.ok.ended-with-stop", ending == 0)
+	}
+	// value is conserved over the four accounts involved, whatever the outcome (a created contract
+	// receives the value on success: it is the fifth account then)
+	if to != nil || failed {
+		zz.Assert("C14.eth.value-conserved", zz.BigEq(sum(), new(big.Int).Add(preSum, big.NewInt(0))))
+	}
 	zz.Assert("C14.eth.sender-never-negative", zz.BigLe(big.NewInt(0), postSender))
 }
